@@ -43,8 +43,101 @@ def reserved():
     return a, b
 
 
+MUTATORS = {"append", "pop", "clear", "update", "insert", "remove", "setdefault", "extend", "sort", "reverse",
+            "popitem", "__setitem__", "__delitem__"}
+
+
+def _rooted_in_data(node, aliases):
+    """is the expression rooted in `<something>.data` (or a local alias of it)?"""
+    while True:
+        if isinstance(node, ast.Attribute):
+            if node.attr in ("data", "_data", "root_data"):
+                return True
+            node = node.value
+        elif isinstance(node, ast.Subscript):
+            node = node.value
+        elif isinstance(node, ast.Call):
+            node = node.func
+        elif isinstance(node, ast.Name):
+            return node.id in aliases
+        else:
+            return False
+
+
+def document_stores():
+    """every store into / mutating call on a document container, per function, over the
+    whole package: (module, qualified function, kind)"""
+    out = []
+    for root, _, files in os.walk(SRC):
+        for f in sorted(files):
+            if not f.endswith(".py"):
+                continue
+            p = os.path.join(root, f)
+            mod = os.path.relpath(p, SRC)[:-3].replace(os.sep, ".")
+            tree = ast.parse(open(p).read())
+
+            def visit_fn(fn, qual):
+                aliases = set()
+                for st in ast.walk(fn):
+                    # alias tracking: x = <expr rooted in .data>
+                    if isinstance(st, ast.Assign) and len(st.targets) == 1 and isinstance(st.targets[0], ast.Name) \
+                            and _rooted_in_data(st.value, aliases) and not isinstance(st.value, ast.Call):
+                        aliases.add(st.targets[0].id)
+                for st in ast.walk(fn):
+                    targets = []
+                    if isinstance(st, ast.Assign):
+                        targets = st.targets
+                    elif isinstance(st, (ast.AugAssign, ast.AnnAssign)):
+                        targets = [st.target]
+                    elif isinstance(st, ast.Delete):
+                        targets = st.targets
+                    for t in targets:
+                        if isinstance(t, ast.Subscript) and _rooted_in_data(t.value, aliases):
+                            out.append((mod, qual, "del" if isinstance(st, ast.Delete) else "store"))
+                    if isinstance(st, ast.Call) and isinstance(st.func, ast.Attribute) and st.func.attr in MUTATORS \
+                            and _rooted_in_data(st.func.value, aliases):
+                        out.append((mod, qual, "call:" + st.func.attr))
+
+            def walk(node, prefix):
+                for ch in ast.iter_child_nodes(node):
+                    if isinstance(ch, (ast.FunctionDef, ast.AsyncFunctionDef)):
+                        visit_fn(ch, prefix + ch.name)
+                    elif isinstance(ch, ast.ClassDef):
+                        walk(ch, prefix + ch.name + ".")
+            walk(tree, "")
+    return sorted(set(out))
+
+
+def exc_mro():
+    import importlib
+    tp = importlib.import_module("treepath")
+    names = ["TreepathException", "MatchNotFoundError", "NestedMatchNotFoundError", "SetError", "PopError",
+             "TraversingError", "InfiniteLoopDetected", "PathSyntaxError", "StopTraversing"]
+    return [(n, [c.__name__ for c in getattr(tp, n).__mro__]) for n in names]
+
+
 def generate():
     b = budget()
+    stores = document_stores()
+    rows = ", ".join(f'("{m}", "{q}", "{k}")' for m, q, k in stores)
+    write_if_changed(os.path.join(GEN, "Stores.lean"), f"""/- GENERATED by harness/gen_facts.py: every store into / mutating call on a document container
+found in /repo/src/treepath (syntactic, intra-procedural, alias-tracking) — do not edit -/
+namespace Treepath.Generated
+
+/-- (module, function, kind) -/
+def documentStores : List (String × String × String) := [{rows}]
+
+end Treepath.Generated
+""")
+    mro = exc_mro()
+    mrows = ", ".join('("' + n + '", ' + lean_str_list(m) + ")" for n, m in mro)
+    write_if_changed(os.path.join(GEN, "ExcMro.lean"), f"""/- GENERATED by harness/gen_facts.py from the MRO of the library's exception classes — do not edit -/
+namespace Treepath.Generated
+
+def excMro : List (String × List String) := [{mrows}]
+
+end Treepath.Generated
+""")
     ra, rb = reserved()
     write_if_changed(os.path.join(GEN, "Reserved.lean"), f"""/- GENERATED by harness/gen_facts.py from dir(PathBuilder) / dir(DashPathBuilder) — do not edit -/
 namespace Treepath.Generated
